@@ -147,6 +147,33 @@ func runC04(c *eng.Ctx) {
 			finish(idx, r, "pair")
 		}
 	}
+	// (b0) members of one group registered around Remove steps (see shrunkGroupSpecs): the group
+	// delivers every member's own instance, for every lifetime
+	for _, l := range allLifetimes {
+		for _, s := range shrunkGroupSpecs(l) {
+			idx, mine := cr.next()
+			if !mine {
+				continue
+			}
+			m := NewModel(s)
+			if m.Class != ClsOK {
+				panic("harness fixture of C04 (shrunk-collection groups) is not buildable: " + m.Class.String())
+			}
+			c.R.Begin(idx)
+			c.R.Count("shrunk_collection_group_specs", 1)
+			r := NewRun(s, m, nil, nil)
+			r.Build()
+			if r.Built {
+				sc := r.Do(Op{Kind: OpCreate, Scope: 0, CtxKind: 1})
+				ProbeAll(r, sc.NewScope)
+				ProbeRegistered(r, 0)
+				r.Finish()
+			} else {
+				report(c, "C04", idx, r, []Finding{{"buildable-forms-rejected", "group-members-around-remove", fmt.Sprintf("Build failed for group members registered around Remove steps: %v", r.BuildErr)}})
+			}
+			finish(idx, r, "shrunk-group")
+		}
+	}
 	// (b') an Add call that is refused half-way (a later output collides with an existing
 	// registration) after an earlier output of it was a group member / a plain identity / an
 	// alias: the call returns an error, and nothing of it shows up in the wiring
@@ -817,7 +844,7 @@ func acceptFeature(m *Model, err error) string {
 
 func runC08(c *eng.Ctx) {
 	cr := &caseRunner{c: c, prop: "C08"}
-	defer func() { RunLateRegistration(c, cr.next); RunBuildTimeScope(c, cr.next); RunVariadic(c, "C08", cr.next) }()
+	defer func() { RunLateRegistration(c, cr.next); RunBuildTimeScope(c, cr.next); RunVariadic(c, "C08", cr.next); RunZeroSingleResults(c, cr.next) }()
 	exec := func(idx int, s *Spec, m *Model, kind string) {
 		r := NewRun(s, m, nil, nil)
 		r.Build()
